@@ -562,6 +562,27 @@ def histories(name, tier):
         for q in (0, 5, p):
             out.append([("seek", p), ("apply", 70), ("seek", q), ("apply", 130), ("pos",)])
             out.append([("apply", 100), ("seek", p), ("pos",), ("apply", 10), ("seek", q), ("apply", 65)])
+    # rewinding / skipping relative to where a request ended (incl. requests ending on wide-chunk
+    # boundaries), consecutive seeks, three requests in a row
+    starts = [0, 32, 64, 96] if tier == "quick" else [0, 1, 32, 63, 64, 96, 250, (1 << 38) - 300]
+    n1s = [64, 256, 288, 320, 512] if tier == "quick" else [1, 63, 64, 65, 192, 224, 256, 257, 288, 320, 512, 544, 1024]
+    deltas = [-65, -64, -63, -32, -1, 0, 1, 63] if tier == "quick" else [-300, -257, -256, -255, -65, -64, -63, -33, -32, -31, -1, 0, 1, 31, 63, 64, 65]
+    for s0 in starts:
+        for n1 in n1s:
+            for dl in deltas:
+                tgt = s0 + n1 + dl
+                if 0 <= tgt <= end:
+                    for m in ((16,) if tier == "quick" else (1, 16, 70, 300)):
+                        out.append([("seek", s0), ("apply", n1), ("seek", tgt), ("pos",), ("apply", m), ("pos",)])
+    for a in (64, 128, 320, 1 << 38):
+        for k in (-63, -32, -1, 1, 32, 63, 64):
+            if 0 <= a + k <= end and a <= end:
+                out.append([("seek", a), ("seek", a + k), ("pos",), ("apply", 40), ("pos",)])
+                out.append([("apply", 256), ("seek", a), ("seek", a + k), ("apply", 70), ("pos",)])
+    for n1 in (32, 64, 100, 256):
+        for n2 in (0, 32, 156, 256):
+            for n3 in (1, 64, 300):
+                out.append([("seek", 32), ("apply", n1), ("apply", n2), ("pos",), ("apply", n3), ("pos",)])
     # the end of the keystream: a failing request leaves data, position and usability intact
     for back in ((0, 1, 10, 64, 65, 300) if nonce == 12 else ()):
         for n in (back + 1, back + 64, back + 400):
